@@ -72,7 +72,37 @@ func ruleP14Lang(p *Prog, r *Report) {
 			r.check(ok1 && g1 == 1, rule, "NewTagFromString:name", p.instrPos(ctor), "the name is capture group 1", "the tag name is not capture group 1 of the tag pattern")
 			// whole-input check: len(match[0]) != len(tag) -> error
 			okWhole := false
-			for _, b := range f.Blocks {
+			blocks := append([]*ssa.BasicBlock{}, f.Blocks...)
+			// … also where the match and this test sit in a helper that answers nil for a text
+			// it refuses, and NewTagFromString rejects on nil
+			var matchHelper *ssa.Function
+			eachInstr(f, func(in ssa.Instruction) {
+				c, isC := in.(ssa.CallInstruction)
+				if !isC || matchHelper != nil {
+					return
+				}
+				h, inner := nilOrValueHelper(c)
+				if h == nil || c.Value() == nil {
+					return
+				}
+				if nm, _, _, _ := methodCall(inner); nm != "FindStringSubmatch" {
+					return
+				}
+				for _, t := range nilTestsOf(f, c.Value()) {
+					if rejectComplete(t.If.Block().Succs[t.NilSucc], func(ret *ssa.Return) string {
+						if p.nilnessAt(ret.Block(), retResult(ret, 1), 0) != nnNonNil {
+							return "no error"
+						}
+						return ""
+					}) == "" && len(guardsOf(t.If.Block())) == 0 {
+						matchHelper = h
+					}
+				}
+			})
+			if matchHelper != nil {
+				blocks = append(blocks, matchHelper.Blocks...)
+			}
+			for _, b := range blocks {
 				iff, isIf := b.Instrs[len(b.Instrs)-1].(*ssa.If)
 				if !isIf {
 					continue
@@ -125,6 +155,12 @@ func ruleP14Lang(p *Prog, r *Report) {
 						diff = b.Succs[1]
 					}
 					if rejectComplete(diff, func(ret *ssa.Return) string {
+						if b.Parent() == matchHelper {
+							if !isNilConst(plainDeref(ret.Results[0])) {
+								return "a match"
+							}
+							return ""
+						}
 						if p.nilnessAt(ret.Block(), retResult(ret, 1), 0) != nnNonNil {
 							return "no error"
 						}
@@ -379,7 +415,7 @@ func ruleP14Model(p *Prog, r *Report) {
 				continue
 			}
 			coll := rangeElemOf(c.Call.Args[1])
-			if coll == nil || strip(coll) != ssa.Value(sub.Params[0]) || strip(c.Call.Args[0]) != ssa.Value(sub.Params[1]) {
+			if coll == nil || strip(coll) != ssa.Value(sub.Params[0]) || !isParamOrSpill(c.Call.Args[0], sub.Params[1]) {
 				continue
 			}
 			missing := b.Succs[1]
@@ -421,7 +457,7 @@ func ruleP14Model(p *Prog, r *Report) {
 					if !isC || g.Pol || !sameFn(staticCallee(c), cont) {
 						continue
 					}
-					if coll := rangeElemOf(c.Call.Args[1]); coll != nil && strip(coll) == ssa.Value(sub.Params[0]) && strip(c.Call.Args[0]) == ssa.Value(sub.Params[1]) {
+					if coll := rangeElemOf(c.Call.Args[1]); coll != nil && strip(coll) == ssa.Value(sub.Params[0]) && isParamOrSpill(c.Call.Args[0], sub.Params[1]) {
 						missing = true
 					}
 				}
@@ -652,7 +688,7 @@ func ruleP20Xor(p *Prog, r *Report) {
 				return
 			}
 			if c, _ := callOf(v); c != nil {
-				if staticCallee(c) != nil && (staticCallee(c).String() == "(*bytes.Buffer).String" || staticCallee(c).String() == "(*bytes.Buffer).Bytes") && buf != nil && sameValue(c.Common().Args[0], buf) {
+				if staticCallee(c) != nil && (staticCallee(c).String() == "(*bytes.Buffer).String" || staticCallee(c).String() == "(*bytes.Buffer).Bytes" || staticCallee(c).String() == "(*strings.Builder).String") && buf != nil && sameValue(c.Common().Args[0], buf) {
 					found = true
 				}
 				for _, a := range c.Common().Args {
@@ -759,7 +795,17 @@ func ruleP20Fields(p *Prog, r *Report) {
 	}
 	fieldsOf := func(f *ssa.Function, typ string) map[string]string {
 		out := map[string]string{}
-		for _, g := range plainWithAnons(f) {
+		fs := plainWithAnons(f)
+		// the function literals of a helper the body was moved to (the helper's own
+		// instructions are visited through its call)
+		for _, h := range helpersCalledFrom(plainWithAnons(f)) {
+			for _, a := range plainWithAnons(h) {
+				if a != h {
+					fs = append(fs, a)
+				}
+			}
+		}
+		for _, g := range fs {
 			eachVInstr(g, func(in ssa.Instruction) {
 				st, ok := in.(*ssa.Store)
 				if !ok {
@@ -1083,4 +1129,18 @@ func ruleP20Run(p *Prog, r *Report) {
 		}
 		r.check(okNow, rule, "now", p.pos(run.Pos()), "--now is applied to the records read and its error returned", "--now is not applied to the records read (or its error is dropped)")
 	}
+}
+
+// isParamOrSpill: v is the parameter, or the address of the local copy a by-value parameter is
+// spilled to when a pointer-receiver method is called on it.
+func isParamOrSpill(v ssa.Value, par *ssa.Parameter) bool {
+	v = strip(v)
+	if v == ssa.Value(par) {
+		return true
+	}
+	if a, ok := v.(*ssa.Alloc); ok {
+		sts := storesTo(a)
+		return len(sts) == 1 && strip(sts[0].val) == ssa.Value(par)
+	}
+	return false
 }
